@@ -9,14 +9,17 @@ Open Scope float_scope.
 
 Notation gcell := (grocell float).
 
-(* the getters of a Molecule: resids, resnames, atoms_ids, atoms_velocities is None *)
-Definition getters := (list Z * list string * list Z * bool)%type.
+(* the getters of a Molecule: resids, resnames, atoms_ids, atoms_velocities is None, geometric_center *)
+Definition getters := (list Z * list string * list Z * bool * V3 float)%type.
 
 Record hobs := mkObs {
   o_names : list string;            (* MoleculeTop.name cells reachable from the handle *)
   o_tops : list topcell;            (* AtomTop objects *)
   o_gros : list (list gcell);       (* AtomGro objects, residue by residue *)
-  o_get : option getters }.
+  o_get : option getters;
+  (* an Alignment: for each end, None or the index in the family of the handle that IS (python `is`)
+     the molecule ali.start / ali.end returns *)
+  o_ali : option (option nat * option nat) }.
 
 Definition tol : float := 0x1p-30.   (* 9.3e-10, relative to 1 + |value| *)
 
@@ -43,8 +46,9 @@ Definition top_agree (a b : topcell) : bool :=
 Definition getters_agree (a b : option getters) : bool :=
   match a, b with
   | None, None => true
-  | Some (r1, n1, i1, v1), Some (r2, n2, i2, v2) =>
-      list_eqb Z.eqb r1 r2 && list_eqb String.eqb n1 n2 && list_eqb Z.eqb i1 i2 && Bool.eqb v1 v2
+  | Some (r1, n1, i1, v1, c1), Some (r2, n2, i2, v2, c2) =>
+      list_eqb Z.eqb r1 r2 && list_eqb String.eqb n1 n2 && list_eqb Z.eqb i1 i2 && Bool.eqb v1 v2 &&
+      v3_close tol c1 c2
   | _, _ => false
   end.
 Definition obs_agree (a b : hobs) : bool :=
@@ -62,22 +66,48 @@ Definition observe (h : heap float) (X : handle float) : res hobs :=
                 let* n := read_resnames h X in
                 let* i := read_ids h X in
                 let* v := read_velocities h X in
-                Ok (Some (r, n, i, match v with None => true | Some _ => false end))
+                let* ps := read_positions h X in
+                let* c := geo_center ps in
+                Ok (Some (r, n, i, match v with None => true | Some _ => false end, c))
             | _ => Ok None
             end in
-  Ok (mkObs names tops gros g).
+  Ok (mkObs names tops gros g None).
 
-Definition handle_agrees (h : heap float) (e : nat * nat * handle float) (o : hobs) : bool :=
-  match observe h (snd e) with
-  | Ok m => obs_agree m o
-  | Err _ => false
-  end.
-Fixpoint all_agree (h : heap float) (fam : family float) (obs : list hobs) : bool :=
-  match fam, obs with
-  | [], [] => true
-  | e :: fs, o :: os => handle_agrees h e o && all_agree h fs os
+(* the molecule an Alignment end refers to must be, location for location, the handle at the
+   family index the implementation names *)
+Definition end_matches (fam : family float) (m : option mol) (oi : option nat) : bool :=
+  match m, oi with
+  | None, None => true
+  | Some (mt, ts, rs), Some i =>
+      match nth_error fam i with
+      | Some (_, _, HM mt' ts' rs') =>
+          Nat.eqb mt mt' && list_eqb Nat.eqb ts ts' && list_eqb (list_eqb Nat.eqb) rs rs'
+      | _ => false
+      end
   | _, _ => false
   end.
+Definition handle_agrees (h : heap float) (fam : family float) (e : nat * nat * handle float) (o : hobs) : bool :=
+  match snd e with
+  | HL a =>
+      match nth_error (hali h) a, o_ali o with
+      | Some (s, e'), Some (os, oe) => end_matches fam s os && end_matches fam e' oe
+      | _, _ => false
+      end
+  | X => match o_ali o with
+         | Some _ => false
+         | None => match observe h X with
+                   | Ok m => obs_agree m o
+                   | Err _ => false
+                   end
+         end
+  end.
+Fixpoint all_agree_from (h : heap float) (whole fam : family float) (obs : list hobs) : bool :=
+  match fam, obs with
+  | [], [] => true
+  | e :: fs, o :: os => handle_agrees h whole e o && all_agree_from h whole fs os
+  | _, _ => false
+  end.
+Definition all_agree (h : heap float) (fam : family float) (obs : list hobs) : bool := all_agree_from h fam fam obs.
 
 (* exception classes: 0 none, 1 OSError/IOError, 2 ValueError, 3 IndexError, 4 TypeError/AttributeError *)
 Definition outcome_matches (r : res unit) (ec : nat) : bool :=
